@@ -35,7 +35,11 @@ func c02Edits(t *rapid.T, marker, dev string) specs.ContainerEdits {
 			e.Mounts = append(e.Mounts, &specs.Mount{HostPath: "/host/" + tok, ContainerPath: rapid.SampledFrom([]string{"/mnt/shared", "/mnt/other", "/mnt/third", "/mnt/shared/deep"}).Draw(t, l+"dest"),
 				Options: []string{"ro"}})
 		case 2:
-			e.Env = append(e.Env, rapid.SampledFrom([]string{"MODE", "SHARED", "MOD", "MODE_X", "SHARED2", "S"}).Draw(t, l+"var")+"="+tok)
+			val := tok
+			if rapid.IntRange(0, 3).Draw(t, l+"multiline") == 0 {
+				val = tok + "\n\nafter a blank line\n" // a value with an empty line in it
+			}
+			e.Env = append(e.Env, rapid.SampledFrom([]string{"MODE", "SHARED", "MOD", "MODE_X", "SHARED2", "S"}).Draw(t, l+"var")+"="+val)
 		default:
 			e.DeviceNodes = append(e.DeviceNodes, &specs.DeviceNode{Path: rapid.SampledFrom([]string{"/dev/shared0", "/dev/shared1"}).Draw(t, l+"node"), HostPath: "/hostdev/" + tok, Type: "c", Major: 240, Minor: int64(i)})
 		}
